@@ -1759,6 +1759,14 @@ static psRes_t tls13ParseCertificateRequest(ssl_t *ssl,
             ssl->err = SSL_ALERT_HANDSHAKE_FAILURE;
             return PS_PARSE_FAIL;
         }
+        /* The sub-parsers below are handed extensionLen bytes: make sure
+           the message really holds that many (the buffer of a reassembled
+           fragmented message is exactly as long as the message). */
+        if (!psParseCanRead(pb, extensionLen))
+        {
+            ssl->err = SSL_ALERT_DECODE_ERROR;
+            return PS_PARSE_FAIL;
+        }
         /* Handle extensions */
         if (extensionId == EXT_SIGNATURE_ALGORITHMS ||
             extensionId == EXT_SIGNATURE_ALGORITHMS_CERT)
